@@ -143,6 +143,7 @@ func closedFieldWriters(c *core.Ctx, key string, f *types.Var, allowed ...string
 	for _, a := range allowed {
 		allow[a] = true
 	}
+	expandAllowed(c, allow)
 	ws := fieldWritersAll(c, f)
 	seen := map[string]bool{}
 	okBy := map[string]bool{}
